@@ -9,6 +9,7 @@ import Ymq.Lemmas.SieveLogCover
 import Ymq.Lemmas.SieveTableExact
 import Ymq.Lemmas.SieveLogTables
 import Ymq.Lemmas.SieveShapeClosed
+import Ymq.Lemmas.SieveShapeRounds
 import Ymq.Props.C13
 
 namespace Ymq.C13
@@ -20,7 +21,7 @@ exactly in the checked profile (no wrap happened), modulo 256 in release. Per pr
 `bitlen p` exactly once at every position congruent to one of its (one or two, different) cursors and nowhere
 else (`pairHits_sum`: classes ≤ 12, unrolled loop + tails; `singleHits_sum`: classes 13..15), so with the
 cursor invariant (`cursor_inv`) a prime contributes its bit length exactly at the positions where it has a root.
-(The closed form over the primes is `class_loops_cover` / `accumulator_spec_small` / `accumulator_spec_partial`.) -/
+(The closed form over the primes is `class_loops_cover` / `accumulator_spec_small` / `accumulator_spec_hits`.) -/
 theorem accumulator_hits_spec (dbg : Bool) (fb : FB) (s : State) (blk : Array Nat)
     (h : blkOf dbg fb s = some blk) :
     ∃ hits, allHits fb s = some hits ∧ blk.size = 32768 ∧ (∀ g ∈ hits, g.1 < 32768) ∧
@@ -85,14 +86,14 @@ theorem accumulator_overflow_iff (fb : FB) (s : State) (hits : List (Nat × Nat)
         exact ⟨b', by simp [accumulate, List.foldlM_cons, bind, hitStep, hv, hv']; exact hb'⟩
     exact this hits _ (fun g hg => by simpa [BLOCK] using hin g hg)
 
-/-- `accumulator_no_overflow_partial`. If at every position the logs added are bounded by the bit lengths of
+/-- `accumulator_no_overflow_hits`. If at every position the logs added are bounded by the bit lengths of
 distinct primes dividing a value `v ≠ 0` with `bitlen v + #primes ≤ 256` (the hypothesis of `log_sum_bound`: with
 true roots the primes hitting `x` divide the polynomial value there), no `+=` site of `sieve_block` overflows:
 the checked model returns, and the release model returns the same bytes (no wrap).
-PARTIAL (general factor bases): the link `hitSum hits x ≤ Σ bitlen p` over the primes with a root at `x` is a
-hypothesis here; it is proved for the primes below the block size (`accumulator_no_overflow_small`), what is missing is
-the same for the entries read back from the bucket tables. -/
-theorem accumulator_no_overflow_partial (fb : FB) (s : State) (hits : List (Nat × Nat))
+(Formerly `accumulator_no_overflow_partial`: the link `hitSum hits x ≤ Σ bitlen p` over the primes with a root at `x` is
+a hypothesis of this hits-level lemma; it is PROVED in `accumulator_no_overflow` for every `+=` site — cursors,
+size-class tables, large tables — on the `new`/`rehash` path.) -/
+theorem accumulator_no_overflow_hits (fb : FB) (s : State) (hits : List (Nat × Nat))
     (hh : allHits fb s = some hits) (hin : ∀ g ∈ hits, g.1 < 32768)
     (hdiv : ∀ x, x < 32768 → ∃ (ps : Finset ℕ) (v : ℕ), (∀ p ∈ ps, p.Prime) ∧ v ≠ 0 ∧ (∀ p ∈ ps, p ∣ v) ∧
       bitlen v + ps.card ≤ 256 ∧ hitSum hits x ≤ ∑ p ∈ ps, bitlen p) :
@@ -192,26 +193,17 @@ theorem class_loops_cover (fb : FB) (hfb : fb.WF) (r1 r2 : Array Nat) (hr : Root
   rw [smallHits_sum hfb hnS hev hprev (by simpa [BLOCK] using hx) hl]
   exact rangeSum_congr (fun k hk1 hk2 => slotF_eq_rootF hfb hnS hprev (by omega) hk1)
 
-/-- `accumulator_spec_partial`: the general form (closed form for the primes below the block size + bucket tables).
+/-- `accumulator_spec_hits`: the general form (closed form for the primes below the block size + bucket tables).
 Whenever the model of `sieve_block` returns the byte array of block `b`: byte `x` is
 `Σ_{k = idxskip}^{2·nS−1} rootF k` — the sum of `bitlen p` over the non-skipped factor-base primes `p < 32768` with a
 root at `x`, each prime counted once per distinct root (`class_loops_cover`) — plus the logs read back from the
 bucket tables (`tableHits`), exactly in the checked profile and modulo 256 in release. When the factor base has no
 prime ≥ 32768 (`s.tables.size = 0`: no bucket table exists and the code returns before the table loops) this is
 the complete closed form `blk[x] = Σ bitlen p over the non-skipped primes with a root at x`.
-PARTIAL (name): the table term `hitSum th x` is expanded into `Σ bitlen p over the primes ≥ 32768 with a root at x`
-on the path `new → rounds → sieve_block` for any factor-base size (`accumulator_spec_large`, exact when no table lost an
-entry; `accumulator_no_overflow_new`, `≤` without any hypothesis on the overflow counters). Missing for the unrestricted
-names `accumulator_spec` / `accumulator_no_overflow`: the rehash path. Exact missing statements: (a) `rehash fb s r1' r2'
-= some s'` (with `Inv` and sized tables for `s`) implies `TShape fb (offsV fb r1' r2' (nblocks·BLOCK)) nblocks s'.tables`
-and `LShape fb (offsV fb r1' r2' (nblocks·BLOCK)) nblocks s'.ltables` — `rehashTable`/`rehashLTable` are add folds over
-`vlargeOffsets`, so `table_class_shape`/`ltable_class_shape` apply once the single loop of `rehashStep` over the factor
-base is split per size class (`range' 0 n = range' 0 idx1 ++ range' idx1 (idx2 − idx1) ++ range' idx2 (n − idx2)`, steps
-outside the class leave the table alone) and the buckets of the reset tables are shown empty; (b) `class_loops_cover`
-and `accumulator_hits_spec` composed along `rehashRounds` (the invariant `Inv` with the last roots is available from
-`rehashRounds_spec`). `tableHits_rel`, `allClassSum_collapse`, `tabSum_le` are already generic in the offsets function
-and need no change. The oracle checks the closed form on the rehash path on the code. -/
-theorem accumulator_spec_partial (dbg : Bool) (fb : FB) (hfb : fb.WF) (r1 r2 : Array Nat) (hr : RootsOK fb r1 r2)
+(Formerly `accumulator_spec_partial`: the table term `hitSum th x` is expanded into
+`Σ bitlen p over the primes ≥ 32768 with a root at x` by `accumulator_spec` — any factor-base size, any number of
+`rehash` rounds — through `new_shape`, `rehash_shape`, `tableHits_rel` and `allClassSum_collapse`.) -/
+theorem accumulator_spec_hits (dbg : Bool) (fb : FB) (hfb : fb.WF) (r1 r2 : Array Nat) (hr : RootsOK fb r1 r2)
     (offset : Int) (nblocks : Nat) (recycled : Option (Array Table × Array LTable)) (hrec : RecycledOK recycled)
     (s0 s1 s : State) (h0 : Sieve.new offset nblocks fb r1 r2 recycled = some s0)
     (b : Nat) (h1 : runBlocks fb b s0 = some s1) (h2 : sieveBlock fb s1 = some s)
@@ -246,7 +238,7 @@ theorem accumulator_spec_small (dbg : Bool) (fb : FB) (hfb : fb.WF) (r1 r2 : Arr
     ∀ x, x < 32768 →
       byteAt blk x % 256 = rangeSum (rootF fb r1 r2 b x) s.idxskip (2 * nS - s.idxskip) % 256 ∧
       (dbg = true → byteAt blk x = rangeSum (rootF fb r1 r2 b x) s.idxskip (2 * nS - s.idxskip)) := by
-  obtain ⟨th, _, hth, hx⟩ := accumulator_spec_partial dbg fb hfb r1 r2 hr offset nblocks recycled hrec s0 s1 s h0 b h1
+  obtain ⟨th, _, hth, hx⟩ := accumulator_spec_hits dbg fb hfb r1 r2 hr offset nblocks recycled hrec s0 s1 s h0 b h1
     h2 nS hnS blk h
   have := hth hsmall
   subst this
@@ -278,7 +270,7 @@ theorem accumulator_spec_tables (dbg : Bool) (fb : FB) (hfb : fb.WF) (r1 r2 : Ar
       (dbg = true → byteAt blk x = rangeSum (rootF fb r1 r2 b x) s.idxskip (2 * nS - s.idxskip) +
         rangeSum (tabF fb r1 r2 (nblocks * BLOCK) (b * BLOCK + x)) nS (fb.primes.size - nS)) := by
   have hrecOK := hrec.ok
-  obtain ⟨th, hth, _, hx⟩ := accumulator_spec_partial dbg fb hfb r1 r2 hr offset nblocks recycled hrecOK s0 s1 s h0 b
+  obtain ⟨th, hth, _, hx⟩ := accumulator_spec_hits dbg fb hfb r1 r2 hr offset nblocks recycled hrecOK s0 s1 s h0 b
     h1 h2 nS hnS blk h
   obtain ⟨hb0, hn0, _, hinv0⟩ := new_spec hfb hr hrecOK hnS h0
   obtain ⟨hinv1, hb1, _, _⟩ := runBlocks_spec hfb hnS b 0 s0 s1 hinv0 h1
@@ -424,7 +416,7 @@ theorem accumulator_no_overflow_tables (fb : FB) (hfb : fb.WF) (r1 r2 : Array Na
         · exact hmem i p o1 (Or.inr hbig) hpi (Or.inl ho1) (by simpa [BLOCK] using c1)
         · exact hmem i p o2 (Or.inr hbig) hpi (Or.inr ho2) (by simpa [BLOCK] using c2)
       · rw [if_neg c] at hpos; omega
-  obtain ⟨blk, e1, e2, e3⟩ := accumulator_no_overflow_partial fb s (l ++ th) hh hin hbound
+  obtain ⟨blk, e1, e2, e3⟩ := accumulator_no_overflow_hits fb s (l ++ th) hh hin hbound
   rw [hrel] at e2
   have := Option.some.inj e2
   subst this
@@ -513,7 +505,7 @@ theorem accumulator_spec_large (dbg : Bool) (fb : FB) (hfb : fb.WF) (r1 r2 : Arr
         rangeSum (tabF fb r1 r2 (nblocks * BLOCK) (b * BLOCK + x)) nS (fb.primes.size - nS)) % 256 ∧
       (dbg = true → byteAt blk x = rangeSum (rootF fb r1 r2 b x) s.idxskip (2 * nS - s.idxskip) +
         rangeSum (tabF fb r1 r2 (nblocks * BLOCK) (b * BLOCK + x)) nS (fb.primes.size - nS)) := by
-  obtain ⟨th, hth, _, hx⟩ := accumulator_spec_partial dbg fb hfb r1 r2 hr offset nblocks recycled hrec.1.ok s0 s1 s h0 b
+  obtain ⟨th, hth, _, hx⟩ := accumulator_spec_hits dbg fb hfb r1 r2 hr offset nblocks recycled hrec.1.ok s0 s1 s h0 b
     h1 h2 nS hnS blk h
   intro x hx'
   have hsum := (tableHits_closed_gen hfb hr hd hrec h0 hb h1 h2 hnS hth x hx').2 hov hovL
@@ -605,7 +597,7 @@ theorem accumulator_no_overflow_new (fb : FB) (hfb : fb.WF) (r1 r2 : Array Nat) 
         · exact hmem i p o1 (Or.inr hbig) hpi (Or.inl ho1) (by simpa [BLOCK] using c1)
         · exact hmem i p o2 (Or.inr hbig) hpi (Or.inr ho2) (by simpa [BLOCK] using c2)
       · rw [if_neg c] at hpos; omega
-  obtain ⟨blk, e1, e2, e3⟩ := accumulator_no_overflow_partial fb s (l ++ th) hh hin hbound
+  obtain ⟨blk, e1, e2, e3⟩ := accumulator_no_overflow_hits fb s (l ++ th) hh hin hbound
   rw [hrel] at e2
   have := Option.some.inj e2
   subst this
@@ -617,6 +609,290 @@ theorem accumulator_no_overflow_new (fb : FB) (hfb : fb.WF) (r1 r2 : Array Nat) 
     exact Nat.add_le_add_left (htab x hx).1 _
   · intro hz hzL
     rw [e3 x, hitSum_append, hcl, (htab x hx).2 hz hzL]
+
+/-! ### general form: any factor-base size, any number of `rehash` rounds, overflows counted or not -/
+
+/-- core of the closed form, from the cursor invariant of the small primes and the table term. -/
+theorem accumulator_core_spec (dbg : Bool) (fb : FB) (hfb : fb.WF) (rS1 rS2 rL1 rL2 : Array Nat)
+    (s : State) (nS : Nat) (hnS : fb.ibl[16]? = some nS) (B b interval : Nat)
+    (hprev : CurInv fb rS1 rS2 s.idxskip nS B s.loPrev) (hev : s.idxskip % 2 = 0) (Z : Prop)
+    (htab : ∀ th, tableHits s = some th → ∀ x, x < 32768 →
+      hitSum th x ≤ rangeSum (tabF fb rL1 rL2 interval (b * BLOCK + x)) nS (fb.primes.size - nS) ∧
+      (Z → hitSum th x = rangeSum (tabF fb rL1 rL2 interval (b * BLOCK + x)) nS (fb.primes.size - nS)))
+    (blk : Array Nat) (h : blkOf dbg fb s = some blk) (hZ : Z) :
+    ∀ x, x < 32768 →
+      byteAt blk x % 256 = (rangeSum (rootF fb rS1 rS2 B x) s.idxskip (2 * nS - s.idxskip) +
+        rangeSum (tabF fb rL1 rL2 interval (b * BLOCK + x)) nS (fb.primes.size - nS)) % 256 ∧
+      (dbg = true → byteAt blk x = rangeSum (rootF fb rS1 rS2 B x) s.idxskip (2 * nS - s.idxskip) +
+        rangeSum (tabF fb rL1 rL2 interval (b * BLOCK + x)) nS (fb.primes.size - nS)) := by
+  intro x hx
+  obtain ⟨hits, hh, _, _, hm, hd, _⟩ := accumulator_hits_spec dbg fb s blk h
+  unfold allHits at hh
+  simp only [Option.bind_eq_bind, Option.bind_eq_some_iff, Option.some.injEq] at hh
+  obtain ⟨l, hl, th, hth, rfl⟩ := hh
+  have hnn := hfb.ibl_le _ _ hnS
+  have hc : hitSum l x = rangeSum (rootF fb rS1 rS2 B x) s.idxskip (2 * nS - s.idxskip) := by
+    rw [smallHits_sum hfb hnS hev hprev (by simpa [BLOCK] using hx) hl]
+    exact rangeSum_congr (fun k hk1 hk2 => slotF_eq_rootF hfb hnS hprev (by omega) hk1)
+  have ht := (htab th hth x hx).2 hZ
+  constructor
+  · rw [hm x, hitSum_append, hc, ht]
+  · intro hdb; rw [hd hdb x, hitSum_append, hc, ht]
+
+/-- core of the no-overflow theorem. -/
+theorem accumulator_core_no_overflow (fb : FB) (hfb : fb.WF) (rS1 rS2 rL1 rL2 : Array Nat)
+    (hrS : RootsOK fb rS1 rS2) (hrL : RootsOK fb rL1 rL2)
+    (s : State) (nS : Nat) (hnS : fb.ibl[16]? = some nS) (B b interval : Nat)
+    (hprev : CurInv fb rS1 rS2 s.idxskip nS B s.loPrev) (hev : s.idxskip % 2 = 0) (Z : Prop)
+    (htab : ∀ th, tableHits s = some th → ∀ x, x < 32768 →
+      hitSum th x ≤ rangeSum (tabF fb rL1 rL2 interval (b * BLOCK + x)) nS (fb.primes.size - nS) ∧
+      (Z → hitSum th x = rangeSum (tabF fb rL1 rL2 interval (b * BLOCK + x)) nS (fb.primes.size - nS)))
+    (blk0 : Array Nat) (hrel : blkOf false fb s = some blk0)
+    (hdiv : ∀ x, x < 32768 → ∃ (ps : Finset ℕ) (v : ℕ), (∀ p ∈ ps, p.Prime) ∧ v ≠ 0 ∧ (∀ p ∈ ps, p ∣ v) ∧
+      bitlen v + ps.card ≤ 256 ∧
+      (∀ i p o, s.idxskip ≤ 2 * i → fb.primes[i]? = some p → p < 32768 → (rS1[i]? = some o ∨ rS2[i]? = some o) →
+        (B * 32768 + x) % p = o → p ∈ ps) ∧
+      (∀ (i p o : Nat), fb.primes[i]? = some p → 32768 ≤ p → (rL1[i]? = some o ∨ rL2[i]? = some o) →
+        (b * 32768 + x) % p = o → p ∈ ps)) :
+    blkOf true fb s = some blk0 ∧
+      ∀ x, x < 32768 →
+        byteAt blk0 x ≤ rangeSum (rootF fb rS1 rS2 B x) s.idxskip (2 * nS - s.idxskip) +
+          rangeSum (tabF fb rL1 rL2 interval (b * BLOCK + x)) nS (fb.primes.size - nS) ∧
+        (Z → byteAt blk0 x = rangeSum (rootF fb rS1 rS2 B x) s.idxskip (2 * nS - s.idxskip) +
+            rangeSum (tabF fb rL1 rL2 interval (b * BLOCK + x)) nS (fb.primes.size - nS)) := by
+  obtain ⟨hits, hh, _, hin, _, _, _⟩ := accumulator_hits_spec false fb s blk0 hrel
+  have hh' := hh
+  unfold allHits at hh'
+  simp only [Option.bind_eq_bind, Option.bind_eq_some_iff, Option.some.injEq] at hh'
+  obtain ⟨l, hl, th, hth, rfl⟩ := hh'
+  have htab' := htab th hth
+  have hnn := hfb.ibl_le _ _ hnS
+  have hc : ∀ x, x < 32768 → hitSum l x = rangeSum (rootF fb rS1 rS2 B x) s.idxskip (2 * nS - s.idxskip) := by
+    intro x hx
+    rw [smallHits_sum hfb hnS hev hprev (by simpa [BLOCK] using hx) hl]
+    exact rangeSum_congr (fun k hk1 hk2 => slotF_eq_rootF hfb hnS hprev (by omega) hk1)
+  have hbound : ∀ x, x < 32768 → ∃ (ps : Finset ℕ) (v : ℕ), (∀ p ∈ ps, p.Prime) ∧ v ≠ 0 ∧ (∀ p ∈ ps, p ∣ v) ∧
+      bitlen v + ps.card ≤ 256 ∧ hitSum (l ++ th) x ≤ ∑ p ∈ ps, bitlen p := by
+    intro x hx
+    obtain ⟨ps, v, hp, hv, hdv, hbd, hmemS, hmemL⟩ := hdiv x hx
+    refine ⟨ps, v, hp, hv, hdv, hbd, ?_⟩
+    rw [hitSum_append, smallHits_sum hfb hnS hev hprev (by simpa [BLOCK] using hx) hl,
+      ← Finset.sum_filter_add_sum_filter_not ps (fun p => p < 32768) bitlen]
+    refine add_le_add (smallSum_le hfb hnS hev hprev _ ?_) (le_trans (htab' x hx).1 (tabSum_le hfb hrL _ ?_))
+    · intro i p hge hi hpi hpos
+      have hps := prime_small hfb hnS (k := 2 * i) (by omega) (by
+        have : (2 * i) / 2 = i := by omega
+        rw [this]; exact hpi)
+      refine Finset.mem_filter.2 ⟨?_, hps⟩
+      obtain ⟨o1, o2, ho1, ho2, _⟩ := hrS i p hpi
+      have e0 : (2 * i) / 2 = i := by omega
+      have e1 : (2 * i + 1) / 2 = i := by omega
+      rw [slotF_eq_rootF hfb hnS hprev (by omega) hge, slotF_eq_rootF hfb hnS hprev (by omega) (by omega)] at hpos
+      unfold rootF at hpos
+      simp only [e0, e1, hpi, ho1, ho2] at hpos
+      by_cases c0 : ((2 * i) % 2 = 0 ∨ o1 ≠ o2) ∧ (B * BLOCK + x) % p = (if (2 * i) % 2 = 0 then o1 else o2)
+      · have m0 : (2 * i) % 2 = 0 := by omega
+        simp only [m0, if_true] at c0
+        exact hmemS i p o1 hge hpi hps (Or.inl ho1) (by simpa [BLOCK] using c0.2)
+      · rw [if_neg c0, Nat.zero_add] at hpos
+        by_cases c1 : ((2 * i + 1) % 2 = 0 ∨ o1 ≠ o2) ∧
+            (B * BLOCK + x) % p = (if (2 * i + 1) % 2 = 0 then o1 else o2)
+        · have m1 : ¬ (2 * i + 1) % 2 = 0 := by omega
+          simp only [m1, if_false] at c1
+          exact hmemS i p o2 hge hpi hps (Or.inr ho2) (by simpa [BLOCK] using c1.2)
+        · rw [if_neg c1] at hpos; omega
+    · intro i p hge hpi hpos
+      have hbig : 32768 ≤ p := big_of_class hfb (le_refl 16) hnS hge hpi
+      refine Finset.mem_filter.2 ⟨?_, by omega⟩
+      obtain ⟨o1, o2, ho1, ho2, _⟩ := hrL i p hpi
+      unfold tabF at hpos
+      simp only [hpi, ho1, ho2] at hpos
+      by_cases c : b * BLOCK + x < interval ∧ ((b * BLOCK + x) % p = o1 ∨ (b * BLOCK + x) % p = o2)
+      · rcases c.2 with c1 | c2
+        · exact hmemL i p o1 hpi hbig (Or.inl ho1) (by simpa [BLOCK] using c1)
+        · exact hmemL i p o2 hpi hbig (Or.inr ho2) (by simpa [BLOCK] using c2)
+      · rw [if_neg c] at hpos; omega
+  obtain ⟨blk, e1, e2, e3⟩ := accumulator_no_overflow_hits fb s (l ++ th) hh hin hbound
+  rw [hrel] at e2
+  have := Option.some.inj e2
+  subst this
+  refine ⟨e1, ?_⟩
+  intro x hx
+  constructor
+  · rw [e3 x, hitSum_append, hc x hx]
+    exact Nat.add_le_add_left (htab' x hx).1 _
+  · intro hz
+    rw [e3 x, hitSum_append, hc x hx, (htab' x hx).2 hz]
+
+/-- the facts about the state in which `sieve_block` runs on the path
+`new → rs rounds (sieve the interval, rehash) → b rounds → sieve_block`. -/
+theorem path_facts {fb : FB} (hfb : fb.WF) {r1 r2 : Array Nat} (hr : RootsOK fb r1 r2)
+    {offset : Int} {nblocks : Nat} {recycled : Option (Array Table × Array LTable)}
+    (hrec : RecycledLens nblocks recycled) {rs : List (Array Nat × Array Nat)}
+    (hrL : RootsOK fb (lastRoots rs (r1, r2)).1 (lastRoots rs (r1, r2)).2)
+    (hdL : RootsDistinct fb (lastRoots rs (r1, r2)).1 (lastRoots rs (r1, r2)).2)
+    {s0 sb s1 s : State} (h0 : Sieve.new offset nblocks fb r1 r2 recycled = some s0)
+    (hb : rehashRounds fb nblocks rs s0 = some sb)
+    {b : Nat} (hbn : b < nblocks) (h1 : runBlocks fb b sb = some s1) (h2 : sieveBlock fb s1 = some s)
+    {nS : Nat} (hnS : fb.ibl[16]? = some nS) :
+    CurInv fb r1 r2 s.idxskip nS (rs.length * nblocks + b) s.loPrev ∧ s.idxskip % 2 = 0 ∧
+    ∀ th, tableHits s = some th → ∀ x, x < 32768 →
+      hitSum th x ≤ rangeSum (tabF fb (lastRoots rs (r1, r2)).1 (lastRoots rs (r1, r2)).2 (nblocks * BLOCK)
+        (b * BLOCK + x)) nS (fb.primes.size - nS) ∧
+      (((∀ (ti : Nat) (t : Table), s.tables[ti]? = some t → t.nOverflows = 0) ∧
+        (∀ (ti : Nat) (t : LTable), s.ltables[ti]? = some t → t.overflows.size = 0)) →
+        hitSum th x = rangeSum (tabF fb (lastRoots rs (r1, r2)).1 (lastRoots rs (r1, r2)).2 (nblocks * BLOCK)
+          (b * BLOCK + x)) nS (fb.primes.size - nS)) := by
+  have hrecOK := hrec.1.ok
+  obtain ⟨b0, n0, _, inv0⟩ := new_spec hfb hr hrecOK hnS h0
+  obtain ⟨invb, nb, bkb, hnil⟩ := rehashRounds_spec hfb hnS rs (r1, r2) 0 s0 sb inv0 n0 hb
+  obtain ⟨inv1, bk1, n1, _⟩ := runBlocks_spec hfb hnS b _ sb s1 invb h1
+  obtain ⟨inv2, hprev, bk2, _, _, ht2, hlt2, _⟩ := sieveBlock_spec hfb hnS inv1 h2
+  obtain ⟨et, elt⟩ := runBlocks_tables fb b sb s1 h1
+  have etab : s.tables = sb.tables := ht2.trans et
+  have eltab : s.ltables = sb.ltables := hlt2.trans elt
+  have hsb0 : sb.blkNo = 0 := by
+    by_cases hrs : rs = []
+    · rw [hnil hrs]; exact b0
+    · exact bkb hrs
+  have hblk : s.blkNo = b := by rw [bk2, bk1, hsb0]; omega
+  have hB : 0 + rs.length * nblocks + b = rs.length * nblocks + b := by omega
+  rw [hB] at hprev
+  refine ⟨hprev, inv2.skip_even, ?_⟩
+  obtain ⟨maxprime, hmax, hts, hlts⟩ := inv2.tsize
+  obtain ⟨hT0, hL0⟩ := new_shape hrec h0
+  intro th hth x hx
+  have hn0 : nblocks ≠ 0 := by omega
+  -- the shapes of the tables of `s`, with offsets functions for the last roots
+  have key : ∃ OT OV : Nat → List Nat, TShape fb OT nblocks s.tables ∧ LShape fb OV nblocks s.ltables ∧
+      (∀ X pidx p o1 o2, fb.primes[pidx]? = some p → (lastRoots rs (r1, r2)).1[pidx]? = some o1 →
+        (lastRoots rs (r1, r2)).2[pidx]? = some o2 → (X ∈ OT pidx ↔ (X < nblocks * BLOCK ∧ (X % p = o1 ∨ X % p = o2)))) ∧
+      (∀ X pidx p o1 o2, fb.primes[pidx]? = some p → (lastRoots rs (r1, r2)).1[pidx]? = some o1 →
+        (lastRoots rs (r1, r2)).2[pidx]? = some o2 → (X ∈ OV pidx ↔ (X < nblocks * BLOCK ∧ (X % p = o1 ∨ X % p = o2)))) ∧
+      (∀ pidx p, fb.primes[pidx]? = some p → 32768 ≤ p → (OT pidx).Nodup) ∧
+      (∀ pidx p, fb.primes[pidx]? = some p → 32768 ≤ p → (OV pidx).Nodup) ∧
+      (∀ pidx, fb.primes[pidx]? = none → (OT pidx).Nodup) ∧ (∀ pidx, fb.primes[pidx]? = none → (OV pidx).Nodup) := by
+    have memV : ∀ X pidx p o1 o2, fb.primes[pidx]? = some p → (lastRoots rs (r1, r2)).1[pidx]? = some o1 →
+        (lastRoots rs (r1, r2)).2[pidx]? = some o2 →
+        (X ∈ offsV fb (lastRoots rs (r1, r2)).1 (lastRoots rs (r1, r2)).2 (nblocks * BLOCK) pidx ↔
+          (X < nblocks * BLOCK ∧ (X % p = o1 ∨ X % p = o2))) := by
+      intro X pidx p o1 o2 hp h1 h2
+      obtain ⟨o1', o2', h1', h2', hl1, hl2⟩ := hrL _ _ hp
+      rw [h1] at h1'; rw [h2] at h2'
+      have := Option.some.inj h1'; subst this
+      have := Option.some.inj h2'; subst this
+      exact mem_offsV hfb hp h1 h2 hl1 hl2
+    have ndV : ∀ pidx p, fb.primes[pidx]? = some p → 32768 ≤ p →
+        (offsV fb (lastRoots rs (r1, r2)).1 (lastRoots rs (r1, r2)).2 (nblocks * BLOCK) pidx).Nodup :=
+      fun pidx p hp hbig => offsV_nodup hfb hrL hdL (fun q hq => by rw [hp] at hq; rw [← Option.some.inj hq]; exact hbig)
+    have ndV0 : ∀ pidx, fb.primes[pidx]? = none →
+        (offsV fb (lastRoots rs (r1, r2)).1 (lastRoots rs (r1, r2)).2 (nblocks * BLOCK) pidx).Nodup :=
+      fun pidx hp => by unfold offsV; simp [hp]
+    by_cases hrs : rs = []
+    · subst hrs
+      have hsb : sb = s0 := hnil rfl
+      have e : lastRoots [] (r1, r2) = (r1, r2) := by simp [lastRoots]
+      rw [e] at memV ndV ndV0 hrL hdL ⊢
+      simp only at memV ndV ndV0 hrL hdL ⊢
+      refine ⟨offsL fb r1 r2 (nblocks * BLOCK), offsV fb r1 r2 (nblocks * BLOCK), by rw [etab, hsb]; exact hT0,
+        by rw [eltab, hsb]; exact hL0, ?_, memV, ?_, ndV, ?_, ndV0⟩
+      · intro X pidx p o1 o2 hp h1 h2
+        obtain ⟨o1', o2', h1', h2', hl1, hl2⟩ := hrL _ _ hp
+        rw [h1] at h1'; rw [h2] at h2'
+        have := Option.some.inj h1'; subst this
+        have := Option.some.inj h2'; subst this
+        exact mem_offsL hfb hp h1 h2 hl1 hl2
+      · exact fun pidx p hp hbig => offsL_nodup hfb hrL hdL
+          (fun q hq => by rw [hp] at hq; rw [← Option.some.inj hq]; exact hbig)
+      · exact fun pidx hp => by unfold offsL; simp [hp]
+    · obtain ⟨hT', hL'⟩ := rehashRounds_shape hfb hnS hn0 rs _ _ (r1, r2) 0 s0 sb inv0 n0 hT0 hL0 hb hrs
+      exact ⟨_, _, by rw [etab]; exact hT', by rw [eltab]; exact hL', memV, memV, ndV, ndV, ndV0, ndV0⟩
+  obtain ⟨OT, OV, hT, hL, mT, mV, nT, nV, nT0, nV0⟩ := key
+  have := tableHits_closed_core hfb hrL hT hL mT mV nT nV nT0 nV0 hnS hmax hts hlts hblk hbn hth x hx
+  exact ⟨this.1, fun hz => this.2 hz.1 hz.2⟩
+
+/-- `accumulator_spec`: the closed form of the byte array of `sieve_block`, GENERAL: any factor-base size (primes below
+the block size through the cursors, primes ≥ 32768 through the size-class tables and `SieveTableLarge`), any number
+`rs.length ≥ 0` of rounds "sieve the whole interval, then `rehash(roots)`" after `Sieve::new` (fresh tables, or recycled
+tables of the same `nblocks`), then `b < nblocks` rounds and `sieve_block()`. When no table has lost an entry
+(`n_overflows = 0` in the size-class tables, empty overflow vector in the large tables) and the two roots of the last
+root table differ for every prime ≥ 32768, byte `x` is
+`Σ_{k = idxskip}^{2·nS−1} rootF k + Σ_{pidx = nS}^{#primes−1} tabF pidx`: the sum of `bitlen p` over the non-skipped primes
+`p < 32768` with `((rs.length·nblocks + b)·32768 + x) mod p` a root given to `new` (once per distinct root; the cursors
+run on across `rehash`), plus the sum of `bitlen p` over ALL primes `p ≥ 32768` with `(b·32768 + x) mod p` a root of the
+LAST root table (`lastRoots`: the one of the last `rehash`, or the one given to `new`) — exactly in the checked profile,
+modulo 256 in release. -/
+theorem accumulator_spec (dbg : Bool) (fb : FB) (hfb : fb.WF) (r1 r2 : Array Nat) (hr : RootsOK fb r1 r2)
+    (offset : Int) (nblocks : Nat) (recycled : Option (Array Table × Array LTable))
+    (hrec : RecycledLens nblocks recycled) (rs : List (Array Nat × Array Nat))
+    (hrL : RootsOK fb (lastRoots rs (r1, r2)).1 (lastRoots rs (r1, r2)).2)
+    (hdL : RootsDistinct fb (lastRoots rs (r1, r2)).1 (lastRoots rs (r1, r2)).2)
+    (s0 sb s1 s : State) (h0 : Sieve.new offset nblocks fb r1 r2 recycled = some s0)
+    (hb : rehashRounds fb nblocks rs s0 = some sb)
+    (b : Nat) (hbn : b < nblocks) (h1 : runBlocks fb b sb = some s1) (h2 : sieveBlock fb s1 = some s)
+    (nS : Nat) (hnS : fb.ibl[16]? = some nS)
+    (hov : ∀ (ti : Nat) (t : Table), s.tables[ti]? = some t → t.nOverflows = 0)
+    (hovL : ∀ (ti : Nat) (t : LTable), s.ltables[ti]? = some t → t.overflows.size = 0)
+    (blk : Array Nat) (h : blkOf dbg fb s = some blk) :
+    ∀ x, x < 32768 →
+      byteAt blk x % 256 = (rangeSum (rootF fb r1 r2 (rs.length * nblocks + b) x) s.idxskip (2 * nS - s.idxskip) +
+        rangeSum (tabF fb (lastRoots rs (r1, r2)).1 (lastRoots rs (r1, r2)).2 (nblocks * BLOCK) (b * BLOCK + x)) nS
+          (fb.primes.size - nS)) % 256 ∧
+      (dbg = true → byteAt blk x =
+        rangeSum (rootF fb r1 r2 (rs.length * nblocks + b) x) s.idxskip (2 * nS - s.idxskip) +
+        rangeSum (tabF fb (lastRoots rs (r1, r2)).1 (lastRoots rs (r1, r2)).2 (nblocks * BLOCK) (b * BLOCK + x)) nS
+          (fb.primes.size - nS)) := by
+  obtain ⟨hprev, hev, htab⟩ := path_facts hfb hr hrec hrL hdL h0 hb hbn h1 h2 hnS
+  exact accumulator_core_spec dbg fb hfb r1 r2 _ _ s nS hnS _ b _ hprev hev _ htab blk h ⟨hov, hovL⟩
+
+/-- `accumulator_no_overflow`: GENERAL (any factor-base size, any number of `rehash` rounds, NO hypothesis on the
+overflow counters). On the path of `accumulator_spec`: if at every position `x` the primes with a root at `x` —
+non-skipped primes below the block size (roots given to `new`, block `rs.length·nblocks + b` since `new`) and all primes
+≥ 32768 (last root table, block `b` of the interval) — belong to a finite set of primes dividing some `v ≠ 0` with
+`bitlen v + #primes ≤ 256` (the hypothesis of `log_sum_bound`), then no `+=` site of `sieve_block` overflows: the checked
+model returns whenever the release model does, with the same bytes; every byte is at most the closed form of
+`accumulator_spec` (entries lost to a bucket overflow are not added: every bucket holds a sublist of the registered
+entries) and equal to it when no table has lost an entry. -/
+theorem accumulator_no_overflow (fb : FB) (hfb : fb.WF) (r1 r2 : Array Nat) (hr : RootsOK fb r1 r2)
+    (offset : Int) (nblocks : Nat) (recycled : Option (Array Table × Array LTable))
+    (hrec : RecycledLens nblocks recycled) (rs : List (Array Nat × Array Nat))
+    (hrL : RootsOK fb (lastRoots rs (r1, r2)).1 (lastRoots rs (r1, r2)).2)
+    (hdL : RootsDistinct fb (lastRoots rs (r1, r2)).1 (lastRoots rs (r1, r2)).2)
+    (s0 sb s1 s : State) (h0 : Sieve.new offset nblocks fb r1 r2 recycled = some s0)
+    (hb : rehashRounds fb nblocks rs s0 = some sb)
+    (b : Nat) (hbn : b < nblocks) (h1 : runBlocks fb b sb = some s1) (h2 : sieveBlock fb s1 = some s)
+    (nS : Nat) (hnS : fb.ibl[16]? = some nS)
+    (blk0 : Array Nat) (hrel : blkOf false fb s = some blk0)
+    (hdiv : ∀ x, x < 32768 → ∃ (ps : Finset ℕ) (v : ℕ), (∀ p ∈ ps, p.Prime) ∧ v ≠ 0 ∧ (∀ p ∈ ps, p ∣ v) ∧
+      bitlen v + ps.card ≤ 256 ∧
+      (∀ i p o, s.idxskip ≤ 2 * i → fb.primes[i]? = some p → p < 32768 → (r1[i]? = some o ∨ r2[i]? = some o) →
+        ((rs.length * nblocks + b) * 32768 + x) % p = o → p ∈ ps) ∧
+      (∀ (i p o : Nat), fb.primes[i]? = some p → 32768 ≤ p →
+        ((lastRoots rs (r1, r2)).1[i]? = some o ∨ (lastRoots rs (r1, r2)).2[i]? = some o) →
+        (b * 32768 + x) % p = o → p ∈ ps)) :
+    blkOf true fb s = some blk0 ∧
+      ∀ x, x < 32768 →
+        byteAt blk0 x ≤ rangeSum (rootF fb r1 r2 (rs.length * nblocks + b) x) s.idxskip (2 * nS - s.idxskip) +
+          rangeSum (tabF fb (lastRoots rs (r1, r2)).1 (lastRoots rs (r1, r2)).2 (nblocks * BLOCK) (b * BLOCK + x)) nS
+            (fb.primes.size - nS) ∧
+        (((∀ (ti : Nat) (t : Table), s.tables[ti]? = some t → t.nOverflows = 0) ∧
+          (∀ (ti : Nat) (t : LTable), s.ltables[ti]? = some t → t.overflows.size = 0)) →
+          byteAt blk0 x = rangeSum (rootF fb r1 r2 (rs.length * nblocks + b) x) s.idxskip (2 * nS - s.idxskip) +
+            rangeSum (tabF fb (lastRoots rs (r1, r2)).1 (lastRoots rs (r1, r2)).2 (nblocks * BLOCK) (b * BLOCK + x)) nS
+              (fb.primes.size - nS)) := by
+  obtain ⟨hprev, hev, htab⟩ := path_facts hfb hr hrec hrL hdL h0 hb hbn h1 h2 hnS
+  exact accumulator_core_no_overflow fb hfb r1 r2 _ _ hr hrL s nS hnS _ b _ hprev hev _ htab blk0 hrel hdiv
+
+/-- non-vacuity of `accumulator_spec` / `accumulator_no_overflow` on the rehash path: a factor base with a 16-bit, a
+17-bit and a 19-bit prime, `new`, one round "sieve the interval, rehash with other roots", `sieve_block`: all calls
+return, three size-class tables and one large table, nothing lost. -/
+example : ((Sieve.new 0 1 (FB.ofPrimes #[3, 5, 32771, 65537, 262147]) #[1, 2, 7, 65000, 100] #[2, 3, 9, 70, 20000]
+      none).bind fun s0 =>
+    (rehashRounds (FB.ofPrimes #[3, 5, 32771, 65537, 262147]) 1 [(#[0, 1, 11, 3, 5000], #[1, 4, 12, 32000, 6])] s0).bind
+      fun sb => (sieveBlock (FB.ofPrimes #[3, 5, 32771, 65537, 262147]) sb).map fun s =>
+        (s.blkNo, s.tables.size, s.ltables.size, s.tables.all (fun t => t.nOverflows == 0),
+          s.ltables.all (fun t => t.overflows.size == 0))) = some (0, 3, 1, true, true) := by
+  decide +kernel
 
 /-- `accumulator_no_overflow_small`: for factor bases whose primes are all below the block size, under the hypothesis of
 `log_sum_bound` — at every position `x` the non-skipped primes with a root at `x` (true roots: they divide the
@@ -678,7 +954,7 @@ theorem accumulator_no_overflow_small (fb : FB) (hfb : fb.WF) (r1 r2 : Array Nat
         simp only [m1, if_false] at c1
         exact hmem i p o2 hge hpi hps (Or.inr ho2) (by simpa [BLOCK] using c1.2)
       · rw [if_neg c1] at hpos; omega
-  obtain ⟨blk, e1, e2, e3⟩ := accumulator_no_overflow_partial fb s (l ++ []) hh hin hbound
+  obtain ⟨blk, e1, e2, e3⟩ := accumulator_no_overflow_hits fb s (l ++ []) hh hin hbound
   rw [hrel] at e2
   have := Option.some.inj e2
   subst this
